@@ -51,8 +51,13 @@ def spawn_stmt(form, fn):
     return {"go": "go %s()" % fn, "spawn": "spawn(%s)" % fn, "fnspawn": "%s.spawn()" % fn}[form]
 
 
+HANG_S = 20
+
+
 def judge(res, bound_ms):
     """Positive evidence of a violation in one observation, or None."""
+    if res.get("k") == "hang":
+        return "the call did not return within %d s of its start (cancellation was due within milliseconds)" % HANG_S
     if res.get("k") != "ok":
         return None
     if res.get("advanced"):
@@ -94,13 +99,13 @@ def run(cx):
     sin = cx.path("scen.ndjson")
     vlib.write_ndjson(sin, rows)
     sout = cx.path("scen.out.ndjson")
-    cx.run([drv, "cancel", "-in", sin, "-out", sout, "-j", str(max(4, vlib.NCPU // 2))], timeout=3000)
+    cx.run([drv, "cancel", "-in", sin, "-out", sout, "-j", str(max(4, vlib.NCPU // 2)), "-per", str(HANG_S)], timeout=3000)
     bound = 3000
     suspects = []
     nrun = 0
     for r_ in vlib.read_ndjson(sout):
         res = r_["res"]
-        if res.get("k") != "ok":
+        if res.get("k") not in ("ok", "hang"):
             cx.notes.append("scenario %s: driver result %s" % (r_["id"], str(res)[:150]))
             continue
         nrun += 1
@@ -118,7 +123,7 @@ def run(cx):
                 rer.append(x)
         vlib.write_ndjson(rein, rer)
         reout = cx.path("re.out.ndjson")
-        cx.run([drv, "cancel", "-in", rein, "-out", reout, "-j", "3"], timeout=3000)
+        cx.run([drv, "cancel", "-in", rein, "-out", reout, "-j", "3", "-per", str(HANG_S)], timeout=3000)
         again = {}
         for r_ in vlib.read_ndjson(reout):
             again.setdefault(r_["id"], []).append(judge(r_["res"], bound))
